@@ -3,6 +3,7 @@ import ProductMD.Proofs.C08CI
 import ProductMD.Proofs.C08Ini
 import ProductMD.Proofs.C08TreeInfo
 import ProductMD.Proofs.C08CIRepeat
+import ProductMD.Proofs.C08Manifests
 import ProductMD.Model.DiscInfo
 import ProductMD.Model.ManifestIO
 /-!
@@ -495,6 +496,34 @@ theorem C08_perm_manifests (k : Mf.Kind) (m m' : Mf.Manifest) (hc : m.compose = 
           first
             | exact .dict (.cons _ hp (.cons _ (.refl _) .nil)) (by simp only [List.map_cons, List.map_nil]; decide)
             | exact .dict (.cons _ (.refl _) (.cons _ hp .nil)) (by simp only [List.map_cons, List.map_nil]; decide)
+
+/-- **C08 (manifest builders): two state updates at different addresses commute.**  Every `add` of the three builders is
+`setPathS leaf path state` after checks that do not touch the state (`Rpms.add_eq`, `Modules.add_eq`, `ExtraFiles.add_eq`); for
+ANY two leaf updates and any two different paths of the same length the two orders give the same mapping up to the order of dict
+entries.  (Towards the statement on whole HISTORIES - a rearrangement of non-colliding calls builds a `JEq` mapping - what is
+still missing is the congruence `JEq s s' → JEq (add s a).1 (add s' a).1`; histories are covered by correspondence.) -/
+theorem C08_manifests_updates_commute (f1 f2 : PyVal → PyVal × Mf.Out) (p1 p2 : List Str) (hl : p1.length = p2.length)
+    (hne : p1 ≠ p2) (s : PyVal) (hs : Mf.NodupAll s) :
+    JEq (Mf.setPathS f2 p2 (Mf.setPathS f1 p1 s).1).1 (Mf.setPathS f1 p1 (Mf.setPathS f2 p2 s).1).1 :=
+  Mf.setPathS_comm f1 f2 p1 p2 hl hne s hs
+
+/-- `Rpms.add` for two accepted calls that file under different `[variant][arch][srpm]` tables: either order, the same
+mapping up to dict order -/
+theorem C08_rpms_adds_commute (s : PyVal) (hs : Mf.NodupAll s) (a b : Mf.RpmsArgs) (pa pb : Mf.RpmsPlan)
+    (ha : Mf.rpmsCheck a = .ok pa) (hb : Mf.rpmsCheck b = .ok pb)
+    (hne : [a.variant, a.arch, pa.srpmKey] ≠ [b.variant, b.arch, pb.srpmKey]) :
+    JEq (Mf.Rpms.add (Mf.Rpms.add s a).1 b).1 (Mf.Rpms.add (Mf.Rpms.add s b).1 a).1 := by
+  simp only [Mf.Rpms.add_eq, ha, hb]
+  exact Mf.setPathS_comm _ _ [a.variant, a.arch, pa.srpmKey] [b.variant, b.arch, pb.srpmKey] (by simp) hne s hs
+
+/-- `Modules.add` for two accepted calls with different `[variant][arch][uid]` (calls that hit the same module concatenate
+its caller-ordered rpm list: their relative order is content) -/
+theorem C08_modules_adds_commute (s : PyVal) (hs : Mf.NodupAll s) (a b : Mf.ModulesArgs) (pa pb : Mf.ModulesPlan)
+    (ha : Mf.modulesCheck a = .ok pa) (hb : Mf.modulesCheck b = .ok pb)
+    (hne : [a.variant, a.arch, pa.uid] ≠ [b.variant, b.arch, pb.uid]) :
+    JEq (Mf.Modules.add (Mf.Modules.add s a).1 b).1 (Mf.Modules.add (Mf.Modules.add s b).1 a).1 := by
+  simp only [Mf.Modules.add_eq, ha, hb]
+  exact Mf.setPathS_comm _ _ [a.variant, a.arch, pa.uid] [b.variant, b.arch, pb.uid] (by simp) hne s hs
 
 /-- **C08 repeat (rpms, modules, extra_files).**  A dump sets `header.version` and nothing else that the next dump reads. -/
 theorem C08_repeat_manifests (k : Mf.Kind) (m : Mf.Manifest) : (Mf.dumps k (Mf.dumps k m).1).2 = (Mf.dumps k m).2 := by
